@@ -29,22 +29,36 @@ type c12Fault struct {
 // c12Faults builds the fault lines. Columns are byte offsets in the line.
 func c12Faults() []c12Fault {
 	var out []c12Fault
-	host := `w = [1, "é"] + f(2) * 3`
-	// token boundaries of the host line (byte offsets where a token starts, plus the end)
-	lx := Lex(host)
-	var bounds []int
-	for _, t := range lx.Toks {
-		p := t.Pos
-		if t.Class == "Str" {
-			p-- // the opening quote
-		}
-		bounds = append(bounds, p)
+	// an illegal byte before every token (and at the end) of host lines that between them use every separator and keyword:
+	// the lexical fault must be reported exactly where it is, whatever token precedes it
+	hosts := []string{
+		`w = [1, "é"] + f(2) * 3`,
+		`x = 1; y = 2; print x, y; print; z = {a: 1}; x++; f(x); if (x) { y = 3 }`,
+		`for (k, v in arrv) { if (k) { continue } else { break } }`,
+		`while (x < 3) x += 1; r = match (x) { 1, 2 => "a", _ => { print x; } }`,
+		`if (!x && y || -z % 2 >= 0) print "s" ~ "r", numv.k[0] is string; for (i = 0; i < 2; i++) next`,
 	}
-	bounds = append(bounds, len(host))
-	for _, b := range bounds {
-		out = append(out, c12Fault{fmt.Sprintf("illegal character at offset %d", b), host[:b] + "@" + host[b:], b, b + 1, false})
-		out = append(out, c12Fault{fmt.Sprintf("stray UTF-8 continuation byte at offset %d", b), host[:b] + "\xa9 " + host[b:], b, b + 1, false})
-		out = append(out, c12Fault{fmt.Sprintf("stray 0x80 at offset %d", b), host[:b] + "\x80 " + host[b:], b, b + 1, false})
+	for hi, host := range hosts {
+		// token boundaries of the host line (byte offsets where a token starts, plus the end)
+		lx := Lex(host)
+		var bounds []int
+		for _, t := range lx.Toks {
+			p := t.Pos
+			if t.Class == "Str" {
+				p-- // the opening quote
+			}
+			bounds = append(bounds, p)
+		}
+		bounds = append(bounds, len(host))
+		for _, b := range bounds {
+			out = append(out, c12Fault{fmt.Sprintf("illegal character at offset %d of host %d", b, hi), host[:b] + "@" + host[b:], b, b + 1, false})
+			if hi > 0 {
+				out = append(out, c12Fault{fmt.Sprintf("illegal character after a blank at offset %d of host %d", b, hi), host[:b] + " ` " + host[b:], b + 1, b + 2, false})
+				continue
+			}
+			out = append(out, c12Fault{fmt.Sprintf("stray UTF-8 continuation byte at offset %d", b), host[:b] + "\xa9 " + host[b:], b, b + 1, false})
+			out = append(out, c12Fault{fmt.Sprintf("stray 0x80 at offset %d", b), host[:b] + "\x80 " + host[b:], b, b + 1, false})
+		}
 	}
 	// a non-ASCII character used as an identifier: the offending character's bytes
 	out = append(out,
